@@ -1,7 +1,8 @@
 import re, os
 WEAVE = [dict(file='src/work_stealing_deque.c', stub_calls={'wsd_circular_array_grow': ['wsd_circular_array_create', 'wsd_circular_array_destroy'], 'wsd_work_stealing_deque_push_bottom': ['wsd_circular_array_destroy'],
                           'wsd_work_stealing_deque_pop_bottom': ['wsd_circular_array_destroy'], 'wsd_work_stealing_deque_steal': ['wsd_circular_array_destroy']}, fns=['wsd_circular_array_create', 'wsd_circular_array_grow', 'wsd_work_stealing_deque_push_bottom', 'wsd_work_stealing_deque_pop_bottom', 'wsd_work_stealing_deque_steal'], loops='loops.json'),
-         dict(file='include/work_stealing_deque.h', parse='src/work_stealing_deque.c', fns=['wsd_circular_array_get', 'wsd_circular_array_put'])]
+         dict(file='src/fiber_scheduler_wsd.c', fns=['fiber_scheduler_load_balance'], loops='loops.json', split_rmw=False),
+        dict(file='include/work_stealing_deque.h', parse='src/work_stealing_deque.c', fns=['wsd_circular_array_get', 'wsd_circular_array_put'])]
 GROUPS = []
 FN_ARR = ['wsd_circular_array_grow', 'wsd_circular_array_create', 'wsd_circular_array_get', 'wsd_circular_array_put']
 for k in (1, 2):
@@ -23,6 +24,8 @@ GROUPS += [
     dict(name='pop_any_size', tu='deque.c', harness='h_pop', mode='H', defs=GD, functions=['wsd_work_stealing_deque_pop_bottom']),
     dict(name='steal_any_size', tu='deque.c', harness='h_steal', mode='H', defs=GD, functions=['wsd_work_stealing_deque_steal']),
 ]
+GROUPS += [dict(name='load_balance_N%d' % n, tu='balance.c', harness='h_balance', mode='H', loop_contracts=True, defs=['-DNTHREADS=%d' % n, '-DVERIF_LOOP_FLAG'], functions=['fiber_scheduler_load_balance'],
+                unwind=8, exact_unwind=True, bounded=True, bound='%d kernel threads (caller id symbolic; any registration state of the other threads; queue sizes symbolic)' % n, thorough_only=(n > 3)) for n in (1, 2, 3, 4)]
 GROUPS += [dict(name='lemmas', tu='lemmas.c', kind='lemmas', harness='', no_native='pure lemma')]
 def static_facts(repo, scratch):
     src = open(os.path.join(repo, 'src/work_stealing_deque.c')).read()
